@@ -104,6 +104,8 @@ package keeper
 //@   invariant #1 others: forall n:Str :: forall c:Int :: n != feedName ==> has(values, n, c) == old(has(values, n, c)) && get(values, n, c) == old(get(values, n, c))
 //@   witness count_def: old(CNT(values, feedName)) == it_n
 //@   ensures trimmed: CNT(values, feedName) == old(CNT(values, feedName)) - min(max(delta, 0), old(CNT(values, feedName)))
+//@   invariant #1 idle: delta <= 0 ==> values == old(values)
+//@   ensures nothing_to_trim: delta <= 0 ==> values == old(values)
 //@   ensures others:  forall n:Str :: forall c:Int :: n != feedName ==> has(values, n, c) == old(has(values, n, c)) && get(values, n, c) == old(get(values, n, c))
 //@ end
 
@@ -130,5 +132,8 @@ package keeper
 //@   modifies values
 //@   ensures stored:  has(values, feedName, batchCounter) && get(values, feedName, batchCounter) == value
 //@   ensures bounded: CNT(values, feedName) <= latestHistory
+// while there is room nothing is dropped: the other recorded values of the feed stay as they are
+//@   ensures room_keeps: old(CNT(values, feedName)) < latestHistory ==> (forall c:Int :: c != batchCounter ==> has(values, feedName, c) == old(has(values, feedName, c)) && get(values, feedName, c) == old(get(values, feedName, c)))
+//@                          && CNT(values, feedName) == old(CNT(values, feedName)) + ite(old(has(values, feedName, batchCounter)), 0, 1)
 //@   ensures others:  forall n:Str :: forall c:Int :: n != feedName ==> has(values, n, c) == old(has(values, n, c)) && get(values, n, c) == old(get(values, n, c))
 //@ end
